@@ -596,6 +596,9 @@ def seeding_rows(obs, dsk, fit, cal) -> list:
                 out.append(seed_kind(_kw(c, "pipeline_seed"), fn, where))
             else:
                 kwargs = _kw(c, "kwargs")
+                if not isinstance(kwargs, ast.Dict) and _kw(c, "pipeline_seed") is not None:
+                    out.append(seed_kind(_kw(c, "pipeline_seed"), fn, where))     # functools.partial(callee, pipeline_seed=..)
+                    continue
                 if not isinstance(kwargs, ast.Dict):
                     fail(c, f"{where}: {callee} handed to a call without a literal kwargs dict")
                 d = {k.value: v for k, v in zip(kwargs.keys, kwargs.values) if isinstance(k, ast.Constant)}
